@@ -10,14 +10,14 @@ export CARGO_NET_OFFLINE=true
 export VERIF_SEED="${VERIF_SEED:-1}"
 ROOT=/verif
 HARNESS=$ROOT/harness
-TGT=$ROOT/target
+TGT="${VERIF_TARGET:-$ROOT/target}"
 SRC="${TCHERAN_SRC:-/repo/src}"
 REPO="$(dirname "$SRC")"
 export TCHERAN_SRC="$SRC"
 
 build_harness() {  # $1 = release|fast
   local log; log=$(mktemp)
-  if ! (cd $HARNESS && cargo build --profile "$1" --offline >"$log" 2>&1); then
+  if ! (cd $HARNESS && CARGO_TARGET_DIR=$TGT/harness cargo build --profile "$1" --offline >"$log" 2>&1); then
     grep -E "^(error|warning: unused)" -A 8 "$log" | head -60
     echo "INFRASTRUCTURE: harness build ($1) failed"; rm -f "$log"; exit 2
   fi
